@@ -18,31 +18,43 @@ TAILS = [b"", b"", b"", b"no newline at end", b"\r", b" "]
 BINARY = [b"\x00", b"\x00\x01\x02bin\x00\n", b"\xff\xfe\x00\x00", b"PNG\r\n\x1a\n\x00\x00", b"\x00" * 5 + b"\n", b"a\x00b\n"]
 
 
-def gen_content(rng, allow_nul=True):
+_uniq = [0]
+
+
+def _binary(rng, nul):
+    """a binary chunk.  nul = 'raw': as is; 'guarded': a never-repeated token in front, so that no
+    group-compress copy instruction can end directly before a NUL (the external bzrformats defect
+    gc-rabin-delta-nul-after-source-end: NULs that follow a block copied from the end of the delta
+    source are stored as other bytes)."""
+    b = rng.choice(BINARY)
+    if nul == "guarded":
+        _uniq[0] += 1
+        return b"<%05d>" % _uniq[0] + b
+    return b
+
+
+def gen_content(rng, nul="guarded"):
     r = rng.random()
     if r < 0.07:
         return b""
     n = rng.randint(1, 6)
-    body = b"".join(rng.choice(LINES) for _ in range(n))
-    if r < 0.3 and allow_nul:
-        k = rng.randint(0, n)
-        parts = [rng.choice(LINES) for _ in range(n)]
-        parts.insert(k, rng.choice(BINARY))
-        body = b"".join(parts)
-    return body + rng.choice(TAILS)
+    parts = [rng.choice(LINES) for _ in range(n)]
+    if r < 0.3 and nul:
+        parts.insert(rng.randint(0, n), _binary(rng, nul))
+    return b"".join(parts) + rng.choice(TAILS)
 
 
-def mutate_content(rng, c, allow_nul=True):
+def mutate_content(rng, c, nul="guarded"):
     """a related content: keep most lines (so that deltas / diffs have context)"""
     lines = c.splitlines(True)
     if not lines or rng.random() < 0.2:
-        return gen_content(rng, allow_nul)
+        return gen_content(rng, nul)
     for _ in range(rng.randint(1, 2)):
         i = rng.randrange(len(lines) + 1)
         r = rng.random()
         if r < 0.4 or not lines:
-            new = rng.choice(LINES if (not allow_nul or rng.random() < 0.85) else BINARY)
-            if i < len(lines) or (lines and lines[-1].endswith(b"\n")) or not lines:
+            new = rng.choice(LINES) if (not nul or rng.random() < 0.85) else _binary(rng, nul)
+            if i < len(lines) or lines[-1].endswith(b"\n"):
                 lines.insert(i, new)
             else:
                 lines.insert(i - 1, new)
@@ -98,13 +110,16 @@ def _free_name(rng, tree, parent, i):
     cands = [n for n in NAMES if n not in used]
     if cands and rng.random() < 0.85:
         return rng.choice(cands)
-    return "n%d" % i
+    k = i
+    while "n%d" % k in used:
+        k += 1
+    return "n%d" % k
 
 
 def gen_history(rng, nrevs, opts=None):
     """format-independent history: list of dict(rid, parents, tree, msg, ts, tz, committer, props, tags)"""
     opts = opts or {}
-    allow_nul = opts.get("nul", True)
+    allow_nul = opts.get("nul", "guarded")
     revs, by_id = [], {}
     fidc = [0]
 
@@ -165,7 +180,7 @@ def _anc(by_id, rid):
     return out
 
 
-def _add(rng, tree, fid, kind, i, allow_nul=True, parent=None):
+def _add(rng, tree, fid, kind, i, allow_nul="guarded", parent=None):
     dirs = [f for f, e in tree.items() if e[2] == "directory"]
     parent = parent or rng.choice(dirs)
     name = _free_name(rng, tree, parent, i)
